@@ -342,11 +342,23 @@ fn run_ops(
             }
             COp::Watermarks { high: h, low: l } => {
                 if h > l {
+                    let usage = stats.cache_memory.load(std::sync::atomic::Ordering::Relaxed);
                     cache.adjust_watermarks(*h, *l);
                     high = h * MB;
                     low = l * MB;
                     bump("op.adjust_watermarks", 1);
                     if sequential {
+                        // a cache that holds more than its new ceiling is swept at once, and a sweep
+                        // goes down to the (new) low watermark like any other
+                        let now = stats.cache_memory.load(std::sync::atomic::Ordering::Relaxed);
+                        if usage > high {
+                            bump("watermark_changes_that_trigger_a_sweep", 1);
+                            if now > low {
+                                fail("eviction-stopped-early", format!("op #{i}: adjust_watermarks({h}, {l}) found {usage} bytes cached, above the new high watermark, and the sweep it triggered stopped at {now}, above the new low watermark {low}"));
+                            }
+                        } else if now != usage {
+                            fail("eviction-below-watermark", format!("op #{i}: adjust_watermarks({h}, {l}) evicted entries although usage {usage} was not above the new high watermark {high}"));
+                        }
                         let after = cache.verif_entries();
                         model.retain(|k, _| after.iter().any(|a| a.0 == keys[*k]));
                     }
